@@ -66,9 +66,9 @@ def step (_ : Unit) (line : String) : Unit × String :=
       let kill :=
         if !trappedDied then "none"
         else if PC.Spec.effectiveSignal sig == 9 && cmd == "-" then "lt"      -- the configured signal is SIGKILL itself
-        else if cmd == "fail" then "lt"                                     -- a failed shutdown command is followed by SIGKILL at once
+        else if cmd == "fail" || cmd == "nostart" then "lt"                                     -- a failed shutdown command is followed by SIGKILL at once
         else if killed then "ge" else "none"
-      let cmdS := if cmd == "-" then "no" else "ran:env:dir"
+      let cmdS := if cmd == "-" || cmd == "nostart" then "no" else "ran:env:dir"
       -- StopProcess returns once its actions are done; a shutdown (API or signal to the binary)
       -- returns when the process has ended: never, if a live member keeps it running
       let ret := if via == "api" || !stillRunning gEnd then "ok" else "timeout"
